@@ -1,5 +1,6 @@
 import Gv.Proofs.BagExt
 import Gv.Proofs.BagExt2
+import Gv.Props.C15
 /-!
 C01, operations that only rewrite residues in place (`ReverseComplementSequences`, `DiffWithFirst`,
 `ReplaceMatchChars`, `Mask`, `MaskUnique` / `MaskOccurences`): ids, names, index, counter, kind, alphabet, cached
@@ -211,5 +212,129 @@ theorem sameShape_replaceMatchChars {b r : Bag} (h : replaceMatchCharsBag b = so
   · cases h
   · simp only [Option.some.injEq] at h; subst h
     exact sameShape_againstFirst _ (matchSeq_length _) b
+
+/-! ### `Mask`, `MaskOccurences` -/
+
+theorem maskWithRef_names_lens {rows : CRows} {L : Int} {alphabet : Nat} {refseq : String} {start len : Int}
+    {mr : MaskRep} {nogap noref : Bool} {found : Option Seq} {out : CRows}
+    (h : maskWithRef rows L alphabet refseq start len mr nogap noref found = some out) :
+    out.map Prod.fst = rows.map Prod.fst ∧ out.map (·.2.length) = rows.map (·.2.length) := by
+  unfold maskWithRef at h
+  split at h
+  · cases h
+  · split at h
+    · cases h
+    · split at h
+      · cases h
+      · simp only [] at h
+        split at h
+        · cases h
+        · simp only [Option.some.injEq] at h; subst h
+          constructor <;> simp [List.map_map, Function.comp_def]
+
+theorem sameShape_maskBag {refseq : String} {start len : Int} {mr : MaskRep} {nogap noref : Bool} {b : Bag}
+    {r : Bag × Bool} (h : maskBag refseq start len mr nogap noref b = some r) : SameShape r.1 b := by
+  unfold maskBag at h
+  split at h
+  · simp only [Option.some.injEq] at h; subst h; exact SameShape.refl b
+  · rename_i ps hps
+    simp only [] at h
+    split at h
+    · cases h
+    · simp only [Option.some.injEq] at h; subst h
+      obtain ⟨hn, hl⟩ := maskWithRef_names_lens hps
+      exact sameShape_withSeqs b ps (hn.trans (pairs_names b)) (hl.trans (pairs_lens b))
+
+theorem maskOccWithRef_names_len {rows : CRows} {L : Int} {alphabet : Nat} {refseq : String} {maxOcc : Int}
+    {mr : MaskRep} {found : Option Seq} {out : CRows}
+    (h : maskOccWithRef rows L alphabet refseq maxOcc mr found = some out) :
+    out.map Prod.fst = rows.map Prod.fst ∧ ∀ p ∈ out, p.2.length = L.toNat := by
+  unfold maskOccWithRef at h
+  split at h
+  · cases h
+  · simp only [] at h
+    split at h
+    · cases h
+    · rename_i refs _
+      simp only [Option.some.injEq] at h; subst h
+      have hcols : ∀ (l : List Nat) (rep : Byte),
+          (maskOccLoop rows refseq refs maxOcc (mr == .maj) l rep).length = l.length := by
+        intro l
+        induction l with
+        | nil => intro _; rfl
+        | cons i t ih => intro rep; simp [maskOccLoop, ih]
+      constructor
+      · rw [List.map_map]
+        have e : ∀ (f : (String × Seq) × Nat → Seq),
+            (List.map (Prod.fst ∘ fun (x : (String × Seq) × Nat) => (x.1.1, f x)) rows.zipIdx) =
+              (rows.zipIdx.map Prod.fst).map Prod.fst := by
+          intro f; rw [List.map_map]; rfl
+        rw [e, List.zipIdx_map_fst]
+      · intro p hp
+        obtain ⟨x, _, rfl⟩ := List.mem_map.mp hp
+        simp [hcols]
+
+theorem keepTails_names (L : Nat) (rows : List Row) (ps : List (String × Seq)) (hl : ps.length = rows.length) :
+    (keepTails L rows ps).map Prod.fst = ps.map Prod.fst := by
+  induction rows generalizing ps with
+  | nil => cases ps <;> simp_all [keepTails]
+  | cons r t ih =>
+    cases ps with
+    | nil => simp at hl
+    | cons p ps =>
+      have := ih ps (by simpa using hl)
+      simp only [keepTails, List.zipWith_cons_cons, List.map_cons] at this ⊢
+      rw [this]
+
+theorem keepTails_lens (L : Nat) (rows : List Row) (ps : List (String × Seq)) (hl : ps.length = rows.length)
+    (hp : ∀ p ∈ ps, p.2.length = L) (hr : ∀ r ∈ rows, L ≤ r.seq.length) :
+    (keepTails L rows ps).map (·.2.length) = rows.map (·.seq.length) := by
+  induction rows generalizing ps with
+  | nil => cases ps <;> simp_all [keepTails]
+  | cons r t ih =>
+    cases ps with
+    | nil => simp at hl
+    | cons p ps =>
+      have := ih ps (by simpa using hl) (fun q hq => hp q (List.mem_cons_of_mem _ hq))
+        (fun q hq => hr q (List.mem_cons_of_mem _ hq))
+      simp only [keepTails, List.zipWith_cons_cons, List.map_cons] at this ⊢
+      rw [this]
+      have h1 := hp p (by simp)
+      have h2 := hr r (by simp)
+      simp [h1]; omega
+
+theorem keepTails_exact (L : Nat) (rows : List Row) (ps : List (String × Seq)) (hl : ps.length = rows.length)
+    (hr : ∀ r ∈ rows, r.seq.length = L) : keepTails L rows ps = ps := by
+  induction rows generalizing ps with
+  | nil => cases ps <;> simp_all [keepTails]
+  | cons r t ih =>
+    cases ps with
+    | nil => simp at hl
+    | cons p ps =>
+      have := ih ps (by simpa using hl) (fun q hq => hr q (List.mem_cons_of_mem _ hq))
+      simp only [keepTails, List.zipWith_cons_cons] at this ⊢
+      rw [this]
+      have h2 := hr r (by simp)
+      simp [← h2]
+
+theorem sameShape_maskOccBag {refseq : String} {maxOcc : Int} {mr : MaskRep} {b : Bag}
+    {r : Bag × Bool} (h : maskOccBag refseq maxOcc mr b = some r) : SameShape r.1 b := by
+  unfold maskOccBag at h
+  split at h
+  · simp only [Option.some.injEq] at h; subst h; exact SameShape.refl b
+  · rename_i ps hps
+    split at h
+    · cases h
+    · rename_i hshort
+      simp only [Option.some.injEq] at h; subst h
+      obtain ⟨hn, hl⟩ := maskOccWithRef_names_len hps
+      have hlen : ps.length = b.rows.length := length_of_names (hn.trans (pairs_names b))
+      have hge : ∀ r ∈ b.rows, b.length.toNat ≤ r.seq.length := by
+        intro r hr
+        have : ¬ (decide (r.seq.length < b.length.toNat) = true) := fun hc =>
+          hshort (List.any_eq_true.mpr ⟨r, hr, hc⟩)
+        simpa using this
+      exact sameShape_withSeqs b _ ((keepTails_names _ _ _ hlen).trans (hn.trans (pairs_names b)))
+        (keepTails_lens _ _ _ hlen hl hge)
 
 end Gv.Proofs.BagAbs
